@@ -26,5 +26,9 @@ C12_CALLEES = dict(_C12.CALLEES)
 def EXTRA():
     from jvc import effects
     # call-history independence of the Python plumbing: no module-level cache or other state is written by these modules
-    return [dict(r, name="C05/effects/" + r["name"]) for r in effects.check_module_state(
+    out = [dict(r, name="C05/effects/" + r["name"]) for r in effects.check_module_state(
         ["thejoker.utils", "thejoker.multiproc_helpers", "thejoker.likelihood_helpers", "thejoker.samples", "thejoker.samples_helpers"])]
+    # the batching option reaches the helpers (the result is proved independent of its value there)
+    out += [r for r in effects.check_option_forwarding(["thejoker.thejoker.TheJoker.marginal_ln_likelihood", "thejoker.thejoker.TheJoker.rejection_sample",
+                                                        "thejoker.thejoker.TheJoker.iterative_rejection_sample"], PROPERTY) if "n_batches" in r["name"]]
+    return out
